@@ -222,6 +222,7 @@ def execute(prop, tier, seed, P, replay=None, clear=True):
         if replay:
             r = json.load(open(replay))
             topo = r["topo"]
+            c_trace = dict(c_trace, Peers=set(json.loads(topo)["peers"]))
             bad, devs, lines, nsteps, tfs = replay_and_validate(sc, topo, [json.dumps(r["inputs"])], c_trace, checked, "replay")
             for b in bad:
                 print("VIOLATION property=%s replay=%s" % (prop, replay))
@@ -250,7 +251,11 @@ def execute(prop, tier, seed, P, replay=None, clear=True):
                        maxreq=g.get("maxreq", 3))
             return None, gen_sim(c, g["maxlen"], g.get("prefix", "PrefixNone"), g["num"], seed + 1, timeout=T.get("gen_timeout", 900))
         jobs = [("mc", m) for m in T["mc"]] + [("gen", g) for g in T["gen"]] + [("sim", g) for g in T.get("sim", [])]
+        fault_gens = T.get("faults", [])
+        jobs += [("gen", g) for g in fault_gens]
         res = pmap(job, jobs, workers=8)
+        fault_res = res[len(res) - len(fault_gens):] if fault_gens else []
+        jobs, res = jobs[:len(jobs) - len(fault_gens)], res[:len(res) - len(fault_gens)]
         mcs = [r for (k, _), r in zip(jobs, res) if k == "mc"]
         groups = [r[1] for (k, _), r in zip(jobs, res) if k != "mc"]
         topo = next(r[0] for (k, _), r in zip(jobs, res) if k == "gen")
@@ -273,6 +278,25 @@ def execute(prop, tier, seed, P, replay=None, clear=True):
         log("[%s] binding self-test done" % prop)
         # 3. replay on the code, 4. validate
         bad, devs, lines, nsteps, tfs = replay_and_validate(sc, topo, behs, c_trace, checked, "main")
+        topo_of = {tf: topo for tf in tfs}
+        nfault = 0
+        for gi, (g, (ftopo, fb)) in enumerate(zip(fault_gens, fault_res)):
+            # behaviours with a faulty (mute) peer: a system of their own
+            fcap = g.get("cap", 6000)
+            if len(fb) > fcap:
+                fb = random.Random(seed + gi).sample(fb, fcap)
+            b2, d2, l2, n2, tf2 = replay_and_validate(sc, ftopo, fb, dict(c_trace, Peers=set(g["peers"])), checked, "fault%d" % gi)
+            bad += b2
+            lines += l2
+            nsteps += n2
+            nfault += len(fb)
+            for k, v in d2.items():
+                if k not in devs:
+                    devs[k] = v
+                else:
+                    devs[k]["n"] += v["n"]
+            for tf in tf2:
+                topo_of[tf] = ftopo
         total, distinct, samples = trace_metrics(tfs)
         viol = 0
         seen = set()
@@ -284,7 +308,7 @@ def execute(prop, tier, seed, P, replay=None, clear=True):
             viol += 1
             beh = behaviour_of(b["trace"], b["line"])
             path = write_replay(prop, "%s_%s" % (b["a"].get("a"), "-".join(sorted(b["comps"]))),
-                                {"property": prop, "topo": topo, "inputs": beh["inputs"], "failing_step": beh["step"],
+                                {"property": prop, "topo": topo_of[b["trace"]], "inputs": beh["inputs"], "failing_step": beh["step"],
                                  "components": b["comps"], "observed": beh["observed"],
                                  "meaning": {k: COMP_MEANING.get(k, k) for k in b["comps"]}})
             print("VIOLATION property=%s replay=%s" % (prop, path))
@@ -298,7 +322,7 @@ def execute(prop, tier, seed, P, replay=None, clear=True):
                 viol += 1
                 print("VIOLATION property=%s replay=none  (deviation %s used but not listed)" % (prop, name))
         cov = {"states": sum(m["distinct"] for m in mcs), "transitions": sum(m["generated"] for m in mcs),
-               "traces_validated_against_impl": len(behs), "evaluations": nsteps, "distinct_nontrivial": distinct,
+               "traces_validated_against_impl": len(behs) + nfault, "behaviours_with_mute_peer": nfault, "evaluations": nsteps, "distinct_nontrivial": distinct,
                "rule": "behaviours = shortest input sequence per transition of the TLC state graph (BFS with VIEW) plus seeded TLC -simulate runs; "
                        "each executed on a fresh real DeviceLocal with in-process peers; a step is non-trivial if it changed the projected state or "
                        "produced a datagram or event; distinct = distinct (input, registry pre-state) pairs among those",
